@@ -46,8 +46,8 @@ CHECKS = {
             "loop invariants over cond-var wait with rely clauses"),
     "C07": ("Per-function proof that each job constructor allocates a fresh response channel / wait counter, that the worker "
             "closures (NewWorker$1 etc.) send exactly the value/err of the user function call on that job's own handle, and that WithSafe "
-            "converts a panic of the user function into an error (ensures_on_panic). Aliasing introduced by *shared closure variables* "
-            "between goroutines is not visible to SEQ mode (seed C07/2 missed).",
+            "converts a panic of the user function into an error (ensures_on_panic). Stores to variables captured from the enclosing scope by these "
+            "closures (which run on several pool goroutines at once) are rejected by a B1 obligation (captured-write).",
             "freshness ($fresh) postconditions + panic-path contracts"),
     "C08": ("Per-function proof that AddAll creates the group with buffer == number of accepted items, each item job sends exactly one "
             "result, the response channel is closed exactly once when the pending count reaches zero (chan obligations: no send on closed, "
@@ -72,7 +72,8 @@ CHECKS = {
     "C14": ("Per-function proof of every lifecycle entry point against the documented state machine: status pre/post pairs for "
             "start/Pause/PauseAndWait/Resume/Stop/WaitAndStop/Restart and the binders (error value and no state change on the refused "
             "transitions; findings F2, F3 fixed), context listener stops only its own generation. Single-call contracts: every sequence "
-            "follows by composition of contracts; concurrent lifecycle calls (CAS races, seed C14/1) are outside SEQ mode.",
+            "follows by composition of contracts. B2-lite: Stop/Restart are additionally proved to end in Stopped/Running when worker.status is changed arbitrarily "
+            "by other goroutines during their blocking waits (obligations b2-*); other concurrent lifecycle interleavings are not modelled.",
             "pre/post state-machine contracts on all lifecycle functions"),
     "C15": ("Full functional proof: Manager Register/Unregister keep the item slice and round-robin cursor in range; GetRoundRobinItem "
             "returns item[cursor] and advances modulo count (so k consecutive calls visit all k queues); GetMaxLenItem/GetMinLenItem return an "
@@ -80,13 +81,14 @@ CHECKS = {
             "dispatches on the configured strategy; every binder registers the queue exactly once (finding F1, fixed).",
             "RI_Manager + quantified postconditions; std slices bodies inlined"),
     "C16": ("Per-function proof that every store to job.status goes through changeStatus / Close with old(status) <= new(status) "
-            "in the order created < queued < processing < finished < closed, and that Close ends at closed. Holds per call; concurrent "
-            "status writers are not composed (seed C16 detection relies on per-call order).",
+            "in the order created < queued < processing < finished < closed, and that Close ends at closed. Holds per call (including the 14 Add/AddAll paths, which must store Queued before "
+            "signalling the dispatcher); concurrent status writers are not composed (finding class G1/G2 of DESIGN.md is not decided).",
             "monotonicity postconditions on all writers of job.status"),
     "C17": ("Per-function proof that Queue/PriorityQueue Len equals the size of the abstract view (never negative, no wrap), "
             "NumPending sums Len over registered queues, metrics counters only increase by one per event and Reset zeroes them, "
             "curProcessing is incremented once per dispatch and decremented once per completion. 'Exact at rest' is by the counters' "
-            "ghost equalities; in-flight interleavings (seed C17/2, Purge store order) are outside SEQ mode.",
+            "ghost equalities; plus every-instant asserts readCount <= writeCount after each counter store in Queue.Purge/Dequeue "
+            "(what the lock-free Len() may observe); other in-flight interleavings are outside SEQ mode.",
             "abstract-view equalities for Len/NumPending; counter ghosts"),
     "C18": ("Per-function proof that the pool list is a well-formed doubly linked list whose length equals the node count ghost, "
             "initPoolNode/freePoolNode/stopAndRemoveAllWorkers/TunePool keep size within [min idle, concurrency] (findings F8, F9 fixed), "
@@ -95,13 +97,17 @@ CHECKS = {
             "RI_List + $nodes/$reapers/$listeners ghost counts"),
 }
 
+CHECKS["C19"] = ("Lock-discipline contracts (B1): every load/store of a field declared guarded_by in the contract files happens with its lock held "
+    "(write mode for stores) on every path of every function of the module that touches such a field; locks acquired are released on every return path; "
+    "helpers declared `holds` are only called with the lock held; frozen fields are written only by constructors; the per-job worker closures never store to "
+    "captured variables. Decided by the executor's held-lock set per path (no solver). This is the lock discipline of the declared fields, not data-race freedom of "
+    "all memory: atomics, channel hand-off and 'for all client programs' are outside it. Known finding G10a (Node.Next/Prev) reported as KNOWN-FINDING; G10b fixed.",
+    "guarded_by / frozen / holds / concurrent contract clauses; held-lock-set tracking along go/ssa paths")
+
 NA = {
     "C13": "distributed consumers are separate processes sharing an external queue behind IDistributedQueue: exactly-once consumption is a "
            "property of the adapter's Dequeue (user code) and of a multi-process history; no contract on varmq's functions can express or "
            "decide it (the in-process half - one dispatch per dequeued item - is covered under C01/C11).",
-    "C19": "data-race freedom needs a lock/atomic discipline checker (DESIGN.md B1: guarded_by + happens-before through channels); "
-           "only its skeleton exists in vq (guardCheck) and it is not sound enough to claim; SEQ-mode contracts say nothing about races. "
-           "Both seeded C19 changes are therefore not detected.",
 }
 
 
